@@ -4,4 +4,4 @@ Extraction Language OCaml.
 (* path relative to the directory make runs in (/verif/coq) *)
 Extraction "../oracle/gen/derive_model.ml" snake_render pascal_render p2c_render fields_render emit_render
   container_render array_render roundtrip_render
-  stable_render identok_render.
+  stable_render identok_render helpers_render.
